@@ -105,6 +105,20 @@ func runC02(sh *core.Shard, a props.Args) {
 		c02Monitors(s)
 		s.Bootstrap(r.Intn(3) == 0)
 		p := c02Profile()
+		if i%8 == 3 {
+			// a large state: one owner publishes 130-430 keys (some deleted again)
+			// in one go, so that observers have hundreds of its entries pending
+			bulk := 130 + r.Intn(300)
+			owner := r.Intn(n)
+			for k := 0; k < bulk && !s.Failed(); k++ {
+				s.Apply(Action{Kind: "upsert", Node: owner, Key: fmt.Sprintf("bulk%03d", k), Val: fmt.Sprint(k % 7)})
+				if k%9 == 4 {
+					s.Apply(Action{Kind: "delete", Node: owner, Key: fmt.Sprintf("bulk%03d", k-2)})
+				}
+			}
+			s.Stats["bulk_state_runs"]++
+			steps += 400
+		}
 		for s.Step < steps && !s.Failed() {
 			if !s.RandomStep(p) {
 				break
@@ -151,13 +165,13 @@ func replayWith(mons func(*Sim)) func(json.RawMessage) (string, bool) {
 func init() {
 	props.Register(&props.Prop{
 		ID: "C02", Level: "exploration",
-		Rule: "seeded simulator runs of the real pkg/gossip code (N nodes, random local upserts/deletes/compactions/leave, gossip rounds, deliver/drop/duplicate/delay of any in-flight datagram, stream join/leave, packet size drawn per run); oracle after every step over all (observer, owner) pairs: authenticity, completeness-at-version, monotone version, own state unchanged. A run is non-trivial when it contained >=1 truncated delta, >=1 relay application and >=1 delete learned only through a compaction marker; distinct = hash of (config, event counts, final states).",
+		Rule: "seeded simulator runs of the real pkg/gossip code (N nodes, random local upserts/deletes/compactions/leave, gossip rounds, deliver/drop/duplicate/delay of any in-flight datagram, stream join/leave, packet size drawn per run; every 8th run starts with one owner publishing 130-430 keys at once so that observers have hundreds of its entries pending); oracle after every step over all (observer, owner) pairs: authenticity, completeness-at-version, monotone version, own state unchanged. A run is non-trivial when it contained >=1 truncated delta, >=1 relay application and >=1 delete learned only through a compaction marker; distinct = hash of (config, event counts, final states).",
 		Assumptions: []string{
 			"sequentially consistent scheduler: one action at a time (true concurrency is C20's job)",
 			"expiry and liveness are disabled, as in the property's quantifier",
 			"datagram contents are never corrupted on honest paths (hostile input is C13)",
 		},
-		RequireCounters: []string{"truncated_deltas", "relay_applications", "deletes_learned_via_compaction", "duplicates", "delayed_deliveries", "compactions", "forged_self_deltas"},
+		RequireCounters: []string{"truncated_deltas", "relay_applications", "deletes_learned_via_compaction", "duplicates", "delayed_deliveries", "compactions", "forged_self_deltas", "bulk_state_runs"},
 		Timeout:         simTimeout(10*time.Minute, 90*time.Minute),
 		Run:             runC02,
 		Replay:          replayWith(c02Monitors),
